@@ -4,7 +4,7 @@
    have the same names in the same order and, unless (name, v) is in a recorded defect class of fs,
    g v = Ok (spec (view v)) where view v are the bytes within the length.
    Only statements, each closed by [exact]; proofs in Proofs/Views*.v. *)
-From PV Require Import Model.ViewsShow Spec.Views Proofs.ViewsBase Proofs.Views Proofs.Views2 Proofs.Views3 Proofs.ViewsLen.
+From PV Require Import Model.ViewsShow Spec.Views Proofs.ViewsBase Proofs.Views Proofs.Views2 Proofs.Views3 Proofs.Views4 Proofs.ViewsLen.
 Open Scope N_scope.
 
 Theorem C02_ARP_getters_spec : forall v, wf v -> bytes_ok (arr v) ->
@@ -107,6 +107,26 @@ Theorem C02_U880a_getters_spec : forall v, wf v -> bytes_ok (arr v) ->
 Proof. exact U880a_spec. Qed.
 Print Assumptions C02_U880a_getters_spec.
 
+Theorem C02_RS_getters_spec : forall v, wf v -> bytes_ok (arr v) ->
+  RS_IsValid v = Ok true -> getters_spec [] RS_getters RS_specs v.
+Proof. exact RS_spec. Qed.
+Print Assumptions C02_RS_getters_spec.
+
+Theorem C02_R4_getters_spec : forall v, wf v -> bytes_ok (arr v) ->
+  R4_IsValid v = Ok true -> getters_spec [] R4_getters R4_specs v.
+Proof. exact R4_spec. Qed.
+Print Assumptions C02_R4_getters_spec.
+
+Theorem C02_LLC_getters_spec : forall v, wf v -> bytes_ok (arr v) ->
+  LLC_IsValid v = Ok true -> getters_spec [] LLC_getters LLC_specs v.
+Proof. exact LLC_spec. Qed.
+Print Assumptions C02_LLC_getters_spec.
+
+Theorem C02_LLDP_getters_spec : forall v, wf v -> bytes_ok (arr v) ->
+  LLDP_IsValid v = Ok true -> getters_spec [] LLDP_getters LLDP_specs v.
+Proof. exact LLDP_spec. Qed.
+Print Assumptions C02_LLDP_getters_spec.
+
 (* ---- the remaining refutation (recorded finding view-ether-payload-spare-capacity) ---- *)
 Theorem C02_Ether_payload_refuted :
   exists v, wf v /\ bytes_ok (arr v) /\ Ether_IsValid v = Ok true /\ ~ getter_ok v Ether_Payload.
@@ -127,3 +147,11 @@ Example C02_Ether_nonvacuous : wf ex_ether /\ bytes_ok (arr ex_ether) /\ Ether_I
   Ether_SrcIP ex_ether = Ok (VX [10;0;0;1]).
 Proof. exact Ether_valid_ex. Qed.
 Print Assumptions C02_Ether_nonvacuous.
+Example C02_LLDP_nonvacuous : wf ex_lldp /\ bytes_ok (arr ex_lldp) /\ LLDP_IsValid ex_lldp = Ok true /\
+  LLDP_ChassisID ex_lldp = Ok (VR 2 7) /\ LLDP_PortID ex_lldp = Ok (VR 11 3).
+Proof. exact LLDP_valid_ex. Qed.
+Print Assumptions C02_LLDP_nonvacuous.
+Example C02_R4_nonvacuous : wf ex_r4 /\ bytes_ok (arr ex_r4) /\ R4_IsValid ex_r4 = Ok true /\
+  R4_Addrs ex_r4 = Ok (VL [VR 8 4; VR 24 4]).
+Proof. exact R4_valid_ex. Qed.
+Print Assumptions C02_R4_nonvacuous.
